@@ -1,76 +1,10 @@
-(** Pointer-level transcription of cstl_heap_promote_child (src/heap.c) and
-    the proof that, on a well-formed linked tree, its pointer writes (the
-    parent's parent's child link or the root, the four parent pointers of the
-    neighbours, the two parent pointers of the pair, the exchange of the
-    child links) realise exactly the exchange of the two elements that
-    HeapModel.sift_up / sift_down perform on the functional tree, with every
-    parent pointer consistent afterwards. *)
-From Cstl Require Import Prelude HeapModel HeapProofs.
-
-Record node := mkN { np : option nat; nl : option nat; nr : option nat }.
-Definition pmem := nat -> node.
-
-Definition pupd (m : pmem) (a : nat) (n : node) : pmem :=
-  fun b => if Nat.eqb b a then n else m b.
-Definition setp (m : pmem) (a : nat) (v : option nat) : pmem :=
-  pupd m a (mkN v (nl (m a)) (nr (m a))).
-Definition setl (m : pmem) (a : nat) (v : option nat) : pmem :=
-  pupd m a (mkN (np (m a)) v (nr (m a))).
-Definition setr (m : pmem) (a : nat) (v : option nat) : pmem :=
-  pupd m a (mkN (np (m a)) (nl (m a)) v).
-
-Definition oeqb (a b : option nat) : bool :=
-  match a, b with
-  | Some x, Some y => Nat.eqb x y
-  | None, None => true
-  | _, _ => false
-  end.
-
-(** cstl_heap_promote_child(h, c), statement by statement; every statement
-    reads the memory left by the previous one. *)
-
-(** [if (p->p == NULL) root = c; else if (p->p->l == p) p->p->l = c; else p->p->r = c;] *)
-Definition s_gp (m : pmem) (c p : nat) : pmem :=
-  match np (m p) with
-  | None => m
-  | Some g => if oeqb (nl (m g)) (Some p) then setl m g (Some c) else setr m g (Some c)
-  end.
-(** [if (c->l != NULL) c->l->p = p;] *)
-Definition s_cl (m : pmem) (c p : nat) : pmem :=
-  match nl (m c) with Some x => setp m x (Some p) | None => m end.
-(** [if (c->r != NULL) c->r->p = p;] *)
-Definition s_cr (m : pmem) (c p : nat) : pmem :=
-  match nr (m c) with Some x => setp m x (Some p) | None => m end.
-(** [if (p->r != NULL) p->r->p = c;] *)
-Definition s_pr (m : pmem) (c p : nat) : pmem :=
-  match nr (m p) with Some x => setp m x (Some c) | None => m end.
-(** [if (p->l != NULL) p->l->p = c;] *)
-Definition s_pl (m : pmem) (c p : nat) : pmem :=
-  match nl (m p) with Some x => setp m x (Some c) | None => m end.
-(** [c->p = p->p;] *)
-Definition s_cp (m : pmem) (c p : nat) : pmem := setp m c (np (m p)).
-(** [p->p = c;] *)
-Definition s_pp (m : pmem) (c p : nat) : pmem := setp m p (Some c).
-(** [p->l = c->l; c->l = p; cstl_swap(&c->r, &p->r, ...);] *)
-Definition s_L (m : pmem) (c p : nat) : pmem :=
-  let m8 := setl m p (nl (m c)) in
-  let m9 := setl m8 c (Some p) in
-  setr (setr m9 c (nr (m9 p))) p (nr (m9 c)).
-(** [p->r = c->r; c->r = p; cstl_swap(&c->l, &p->l, ...);] *)
-Definition s_R (m : pmem) (c p : nat) : pmem :=
-  let m8 := setr m p (nr (m c)) in
-  let m9 := setr m8 c (Some p) in
-  setl (setl m9 c (nl (m9 p))) p (nl (m9 c)).
-
-(** [None] = the function dereferences NULL ([c->p == NULL]) *)
-Definition promote (m : pmem) (root : option nat) (c : nat) : option (pmem * option nat) :=
-  match np (m c) with
-  | None => None
-  | Some p =>
-    let root1 := match np (m p) with None => Some c | Some _ => root end in
-    let m7 := s_pp (s_cp (s_pl (s_pr (s_cr (s_cl (s_gp m c p) c p) c p) c p) c p) c p) c p in
-    Some (if oeqb (nl (m7 p)) (Some c) then s_L m7 c p else s_R m7 c p, root1)
-  end.
+(** Proofs about the pointer-level model (HeapLinksModel.v): the pointer
+    writes of cstl_heap_promote_child (the parent's parent's child link or the
+    root, the four parent pointers of the neighbours, the two parent pointers
+    of the pair, the exchange of the child links) realise exactly the exchange
+    of the two elements that HeapModel.sift_up / sift_down perform on the
+    functional tree, with every parent pointer consistent afterwards. *)
+From Cstl Require Import Prelude HeapModel HeapProofs HeapLinksModel.
 
 (** the tree [t] (element ids = node addresses) is laid out in [m] at address
     [a] with parent pointer [par] *)
